@@ -52,7 +52,36 @@ def write_single_spec(ident, body, root):
         G.write_tree(root, [("T", body)])
 
 
+def _replay_worker(args):
+    """one native replay (first on the single spec / tree, then - if that finds nothing - on the whole batch tree)"""
+    prop, tier, seed, ident, body, cls_name, tree, payload, cls_in_batch = args
+    chk = E2Check(prop, tier, seed, "")
+    try:
+        nat = chk.native_replay(ident, body, cls_name, tree)
+        batch = None
+        if nat is None and payload is not None:
+            nat = chk.native_replay(ident, body, cls_in_batch, None, payload)
+            if nat is not None:
+                batch = payload
+                nat["needs_the_whole_batch_tree"] = True
+        return nat, batch
+    except Exception as e:
+        return {"kind": "native-harness-error", "exception": repr(e)}, None
+
+
 class E2Check:
+    def parallel_replays(self, items):
+        """items: (ident, body, cls_name or None, tree, payload, cls_in_batch) -> [(native result, batch)]"""
+        if not items:
+            return []
+        import multiprocessing as mp
+        args = [(self.prop, self.tier, self.seed) + tuple(it) for it in items]
+        if len(args) == 1:
+            return [_replay_worker(args[0])]
+        ctx = mp.get_context("fork")
+        with ctx.Pool(min(16, len(args), os.cpu_count() or 1)) as pool:
+            return pool.map(_replay_worker, args, chunksize=1)
+
     def __init__(self, prop, tier, seed, level_text):
         self.prop = prop
         self.tier = tier
@@ -167,6 +196,7 @@ class E2Check:
             traceback.print_exc()
             return 3
         obligations = discharged = skipped = 0
+        bad_counts = {}
         by_backend = {}
         solver_s = 0.0
         classes = programs = 0
@@ -207,6 +237,7 @@ class E2Check:
                 else:
                     top = fn.split(".")[0]
                     ident = out["idents"].get(top, "realistic:" + top)
+                    bad_counts[(ident, fn.rsplit(".", 1)[0])] = bad_counts.get((ident, fn.rsplit(".", 1)[0]), 0) + 1
                     rec = (ident, bodies.get(ident), ob, task[1] if task[0] == "tree" else None,
                            task[1] if task[0] == "batch" else None)
                     (failures if status == "sat" else unknowns).append(rec)
@@ -222,64 +253,70 @@ class E2Check:
         violations = []
         undecided = []
         seen = set()
+        todo = []
         for ident, body, ob, tree, payload in failures + unknowns:
-            name, kind, fn, status, backend, dt, info, model = ob
-            cls_name = fn.rsplit(".", 1)[0]
-            key = (ident, cls_name)
-            if key in seen:
+            cls_name = ob[2].rsplit(".", 1)[0]
+            if (ident, cls_name) in seen:
                 continue
-            seen.add(key)
-            if len([v for v in violations if v["native"] and not v["native"].get("read_to_end_arrays_without_progress")]) >= 8 \
-                    and status == "sat":
-                # enough violations with a failing input on the real code are already in hand
-                violations.append({"spec": ident, "body": body, "class": cls_name, "obligation": name, "status": status,
-                                   "why": info.get("why"), "counter_model": model, "native": None, "batch": None,
-                                   "not_replayed": True})
-                continue
-            nat = self.native_replay(ident, body, cls_name if tree else None, tree)
-            batch = None
-            if nat is None and payload is not None:
-                nat = self.native_replay(ident, body, cls_name, None, payload)
-                if nat is not None:
-                    batch = payload
-                    nat["needs_the_whole_batch_tree"] = True
-            rec = {"spec": ident, "body": body, "class": cls_name, "obligation": name, "status": status,
-                   "why": info.get("why"), "counter_model": model, "native": nat, "batch": batch}
-            if status == "sat" or nat is not None:
-                violations.append(rec)
-            elif kind == "variant" and self.prop == "C03" and self.static_sites(ident, body, cls_name, tree, payload):
-                # an undecided termination obligation of a loop the known finding names: the call site is the
-                # finding's; whether this particular spec can reach it with data left was not decided
-                rec["native"] = {"kind": "does-not-terminate", "unconfirmed_here": True,
-                                 "read_to_end_arrays_without_progress": self.static_sites(ident, body, cls_name, tree, payload)}
-                rec["unconfirmed"] = True
-                violations.append(rec)
-            else:
-                undecided.append(rec)
+            seen.add((ident, cls_name))
+            todo.append((ident, body, ob, tree, payload, cls_name))
+        CH = 32
+        for lo in range(0, len(todo), CH):
+            chunk = todo[lo:lo + CH]
+            enough = len([v for v in violations
+                          if v["native"] and not v["native"].get("read_to_end_arrays_without_progress")
+                          and not v["native"].get("optional_length_across_break")]) >= 8
+            run_now = [t for t in chunk if not (enough and t[2][3] == "sat")]
+            nats = dict(zip([id(t) for t in run_now],
+                            self.parallel_replays([(t[0], t[1], t[5] if t[3] else None, t[3], t[4], t[5]) for t in run_now])))
+            for t in chunk:
+                ident, body, ob, tree, payload, cls_name = t
+                name, kind, fn, status, backend, dt, info, model = ob
+                if id(t) not in nats:
+                    # enough violations with a failing input on the real code are already in hand
+                    violations.append({"spec": ident, "body": body, "class": cls_name, "obligation": name, "status": status,
+                                       "why": info.get("why"), "counter_model": model, "native": None, "batch": None,
+                                       "not_replayed": True})
+                    continue
+                nat, batch = nats[id(t)]
+                rec = {"spec": ident, "body": body, "class": cls_name, "obligation": name, "status": status,
+                       "why": info.get("why"), "counter_model": model, "native": nat, "batch": batch}
+                if status == "sat" or nat is not None:
+                    violations.append(rec)
+                elif kind == "variant" and self.prop == "C03" and self.static_sites(ident, body, cls_name, tree, payload):
+                    # an undecided termination obligation of a loop the known finding names: the call site is the
+                    # finding's; whether this particular spec can reach it with data left was not decided
+                    rec["native"] = {"kind": "does-not-terminate", "unconfirmed_here": True,
+                                     "read_to_end_arrays_without_progress": self.static_sites(ident, body, cls_name, tree, payload)}
+                    rec["unconfirmed"] = True
+                    violations.append(rec)
+                else:
+                    undecided.append(rec)
         self.phase["triage_s"] = round(time.time() - t_triage, 1)
         t_standin = time.time()
         # functions outside the VC generator's fragment: bounded stand-in (never counted as proved)
         standins = []
         seen_u = set()
-        idents_by_top = {}
+        su = []
         for task, out in pipe["results"]:
-            for top, ident in out.get("idents", {}).items():
-                idents_by_top[(id(out), top)] = ident
             for (cname, fn, reason) in out["unsupported"]:
                 top = cname.split(".")[0]
                 ident = out["idents"].get(top, "realistic:" + top)
                 if (ident, cname) in seen_u:
                     continue
                 seen_u.add((ident, cname))
-                nat = self.native_replay(ident, bodies.get(ident), cname if task[0] == "tree" else None,
-                                         task[1] if task[0] == "tree" else None)
-                standins.append({"spec": ident, "class": cname, "function": fn, "reason": reason,
-                                 "bounded_native_search": "no failure" if nat is None else "FAILURE"})
-                if nat is not None:
-                    violations.append({"spec": ident, "body": bodies.get(ident), "class": cname,
-                                       "obligation": f"{cname}.{fn}:runtime-contract(bounded)", "status": "native",
-                                       "why": "bounded stand-in for a function outside the fragment found a failure",
-                                       "counter_model": None, "native": nat})
+                su.append((ident, cname, fn, reason, task))
+        nats = self.parallel_replays([(ident, bodies.get(ident), cname if task[0] == "tree" else None,
+                                       task[1] if task[0] == "tree" else None, None, cname)
+                                      for ident, cname, fn, reason, task in su])
+        for (ident, cname, fn, reason, task), (nat, _) in zip(su, nats):
+            standins.append({"spec": ident, "class": cname, "function": fn, "reason": reason,
+                             "bounded_native_search": "no failure" if nat is None else "FAILURE"})
+            if nat is not None:
+                violations.append({"spec": ident, "body": bodies.get(ident), "class": cname,
+                                   "obligation": f"{cname}.{fn}:runtime-contract(bounded)", "status": "native",
+                                   "why": "bounded stand-in for a function outside the fragment found a failure",
+                                   "counter_model": None, "native": nat})
         self.phase["standins_s"] = round(time.time() - t_standin, 1)
         # valid specs the generator refuses (C02's boolean clause / C18) are violations of C02
         if self.prop == "C02":
@@ -294,6 +331,7 @@ class E2Check:
         known = load_known(self.prop)
         known_lines = []
         known_instances = []
+        attributed = 0          # undischarged obligations that ARE the listed known findings
         real = []
         for v in violations:
             hit = None
@@ -314,6 +352,7 @@ class E2Check:
                 line = f"KNOWN-FINDING: property={self.prop} {hit['what']}"
                 if line not in known_lines:
                     known_lines.append(line)
+                attributed += bad_counts.pop((v["spec"], v["class"]), 0)
                 known_instances.append({"spec": v["spec"], "class": v["class"], "obligation": v["obligation"],
                                         "solver": v["status"], "confirmed_on_the_real_code": not v.get("unconfirmed"),
                                         "input": (v["native"] or {}).get("bytes")})
@@ -329,8 +368,9 @@ class E2Check:
                 + "; a program counts when xmlsem finds it well-formed and non-degenerate and the generator accepts it; "
                   "per program every emitted class is verified for all values")
         cov = {
-            "obligations": obligations,
+            "obligations": obligations - attributed,
             "discharged": discharged,
+            "obligations_of_listed_known_findings_not_discharged": attributed,
             "not_solved_after_eight_refutations_in_their_batch": skipped,
             "checker_cmd": f"python3-vt -m checks {self.prop} --tier {self.tier}",
             "trusted_base": E2_TRUSTED,
